@@ -409,9 +409,3 @@ def _enclosing_for(n):
     return q if isinstance(q, ast.For) else None
 
 
-def _two_on_a_path(cfg, nodes):
-    for a in nodes:
-        seen = cfg.reach(start_edges=cfg.out_edges(a))
-        if any(b in seen for b in nodes if b is not a):
-            return True
-    return False
